@@ -43,8 +43,8 @@ static double boundOf (const std::string& what)
         {"axis-angle-roundtrip", 16},     // setAxisAngle(axis(), angle()) = q
         {"setAxisAngle-quat-vs-matrix", 16},
         {"setAxisAngle-exact", 16},       // Quat / Matrix44::setAxisAngle vs Rodrigues with the axis normalised in long double (incl. tiny axes whose length2 underflows)
-        {"exp-log", 32},                  // exp(log q) = q for every real part > -1 + 64 eps; scale 1/sin^2(theta) for r < 0 (|q|^2 = 1 + O(eps) enters through sin(acos r) vs |v|)
-        {"exp-log-formula", 32},          // the code vs the same formulas (exp o log at the float input) in long double; scale 1/sin(theta) for r < 0
+        {"exp-log", 16},                  // exp(log q) = q for every real part > -1 + 64 eps; scale 1/sin(theta) + (| |q|^2 - 1 | / eps) theta / (2 sin^2(theta)) for r < 0
+        {"exp-log-closed-form", 16},      // the code vs an independent closed form of exp o log at the float input (long double); scale 1/sin(theta) for r < 0
         {"setRotation-unit", 8},          // | |q| - 1 |
         {"setRotation-carries", 16},      // rotateVector(q, from^) vs to^
         {"rotationMatrix-carries", 16},   // from^ * rotationMatrix vs to^
@@ -251,18 +251,28 @@ template <class T> static void unitQuatChecks (int i)
         }
         if ((L) q.r > -1 + 64 * eps)
         {
-            // the same formulas at the float input, in long double
-            L rr = (L) q.r, thc = acosl (std::min (rr, (L) 1));
+            // (a) the identity itself, exp (log q) = q.  Conditioning for r < 0 (first order, theta = acos r, |q|^2 = 1 + delta):
+            //     acos contributes eps / sin(theta) to theta; the float input is unit only up to delta = O(eps), and |v| = sin(theta) sqrt (1 +
+            //     delta / sin^2) enters log's factor theta / sin(acos r) as delta theta / (2 sin^2(theta)) on the angle.  So the scale is
+            //     1 / sin(theta) + (|delta| / eps) * theta / (2 sin^2(theta)), with delta measured on the input (long double): the second
+            //     term is a property of the INPUT (it vanishes for an exactly unit q), not slack for the code.
+            // (b) an INDEPENDENT closed form of exp o log at the same input, not a transcription of the code's steps: the result of the two
+            //     functions composed is (cos phi, v/|v| sin phi) with phi = |v| acos (r) / sqrt ((1 - r)(1 + r))  (sqrt (1 - r^2) computed
+            //     without cancellation instead of sin (acos r); 1 + r is exact in long double for float and double r); scale 1 / sin(theta).
+            L rr = (L) q.r, vx = (L) q.v.x, vy = (L) q.v.y, vz = (L) q.v.z;
+            L vl = sqrtl (vx * vx + vy * vy + vz * vz);
+            L thc = acosl (std::min (rr, (L) 1));
+            L sn = rr >= 1 ? 0 : sqrtl ((1 - rr) * (1 + rr)); // = sin (acos r), no cancellation
             LQ ref;
-            if (thc == 0) ref = LQ{1, (L) q.v.x, (L) q.v.y, (L) q.v.z}; // log = (0, v), |v| = O(sqrt eps): exp of it
-            L k = thc == 0 ? 1 : thc / sinl (thc);
-            L px = (L) q.v.x * k, py = (L) q.v.y * k, pz = (L) q.v.z * k, th2 = sqrtl (px * px + py * py + pz * pz);
-            L k2 = th2 == 0 ? 1 : sinl (th2) / th2;
-            ref = LQ{cosl (th2), px * k2, py * k2, pz * k2};
-            L sn = sinl (thc);
-            L sc1 = (rr < 0 && sn > 0) ? 1 / sn : 1, sc2 = (rr < 0 && sn > 0) ? 1 / (sn * sn) : 1;
+            if (thc == 0 || vl == 0) ref = LQ{cosl (vl), vl == 0 ? 0 : vx / vl * sinl (vl), vl == 0 ? 0 : vy / vl * sinl (vl), vl == 0 ? 0 : vz / vl * sinl (vl)};
+            else { L phi = vl * thc / sn; ref = LQ{cosl (phi), vx / vl * sinl (phi), vy / vl * sinl (phi), vz / vl * sinl (phi)}; }
+            L delta = fabsl (rr * rr + vl * vl - 1);
+            bool neg = rr < 0 && sn > 0;
+            L sc1 = neg ? 1 / sn : 1;
+            L sc2 = neg ? 1 / sn + (delta / eps) * thc / (2 * sn * sn) : 1 + delta / eps;
             if (rr < -0.9L) hits["exp-log:real-part-in(-1+64eps,-0.9)"]++;
-            check<T> ("exp-log-formula", nan ? (L) INFINITY : qdist (toL (e), ref), sc1, in);
+            if (rr < -0.999L) hits["exp-log:real-part-in(-1+64eps,-0.999)"]++;
+            check<T> ("exp-log-closed-form", nan ? (L) INFINITY : qdist (toL (e), ref), sc1, in);
             check<T> ("exp-log", nan ? (L) INFINITY : qdist (toL (e), toL (q)), sc2, in);
         }
         else { hits["exp-log:real-part-within-64eps-of--1 (only NaN-freeness required)"]++; if (nan) check<T> ("exp-log", (L) INFINITY, 1, in + " NaN"); }
@@ -550,8 +560,7 @@ template <class T> static void slerpChecks (int i)
         T a = angle4D (q1, q2);
         auto tinyB = [] (T x) { return x * x < std::numeric_limits<T>::epsilon (); };
         hits[tinyB (a) ? "sinx_over_x(a):tiny-branch" : "sinx_over_x(a):sin(x)/x"]++;
-        T th5 = (T) 0.5 * a;
-        hits[tinyB (th5) ? "sinx_over_x(t*a):tiny-branch" : "sinx_over_x(t*a):sin(x)/x"]++;
+        (void) tinyB;
     }
     static const L ts[] = {0, 1, 0.5L, 0.25L, 1e-3L, 1 - 1e-3L, -0.1L, -1e-3L, 1 + 1e-3L, 1.1L};
     L eps = (L) std::numeric_limits<T>::epsilon ();
@@ -560,6 +569,14 @@ template <class T> static void slerpChecks (int i)
         L tt = tl;
         if (tl == 0.25L) tt = uni (0, 1);
         T t = (T) tt;
+        // the three arguments slerp passes to sinx_over_x, for THIS t (mirror of the code: a, (1 - t) * a, t * a)
+        {
+            T a = angle4D (q1, q2), s = 1 - t;
+            auto tinyB = [] (T x) { return x * x < std::numeric_limits<T>::epsilon (); };
+            bool A = tinyB (a), S = tinyB (s * a), Tt = tinyB (t * a);
+            hits[Tt ? "sinx_over_x(t*a):tiny-branch" : "sinx_over_x(t*a):sin(x)/x"]++;
+            if (!A && (S || Tt)) hits["sinx_over_x:mixed(a-not-tiny,s*a-or-t*a-tiny)"]++;
+        }
         Quat<T> r = slerp (q1, q2, t);
         LQ rl = toL (r);
         char b[64]; snprintf (b, 64, " t=%.17g", (double) t);
